@@ -67,12 +67,6 @@ Section LoopInv.
     - destruct (beqb top n); discriminate.
   Qed.
 
-  Lemma kept_start_checked st n c st' out : checked c = true -> kept_start st n c = Ok st' out -> Forall (fun c => checked c = true) out.
-  Proof.
-    intros Hc H. unfold kept_start in H.
-    break_hyp H; repeat match goal with |- context [if ?x then _ else _] => destruct x end; repeat constructor; auto.
-  Qed.
-
   Lemma end_tail_inv st n st' out : Inv st -> end_tail I p st n = Ok st' out -> Inv st'.
   Proof.
     intros Hi H. unfold end_tail in H.
@@ -153,44 +147,19 @@ Section LoopInv.
 
   (* C14 (no panic): the loop never reaches the index-out-of-range state *)
   Theorem run_no_panic : forall ts, snd (run I p ts) = false.
+  Proof.
+    intros ts. unfold run. pose proof (run_from_no_panic ts init_state inv_init) as H.
+    unfold run_items. destruct (run_from I p init_state ts) as [its pn]. exact H.
+  Qed.
+
+  Theorem run_items_no_panic : forall ts, snd (run_items I p ts) = false.
   Proof. intros ts. apply run_from_no_panic, inv_init. Qed.
 
   (* every write of the loop is a checked write (its error is returned) *)
-  Lemma end_tail_checked st n st' out : end_tail I p st n = Ok st' out -> Forall (fun c => checked c = true) out.
+  Lemma run_checked : forall ts, Forall (fun c => checked c = true) (fst (run I p ts)).
   Proof.
-    intros H. unfold end_tail in H. unfold space_if_adding in H.
-    break_hyp H; repeat match goal with |- context [if ?x then _ else _] => destruct x end; repeat constructor.
-  Qed.
-
-  Lemma step_checked st t st' out : step I p st t = Ok st' out -> Forall (fun c => checked c = true) out.
-  Proof.
-    intros H. destruct t as [d | n a | n | n a | d | d]; cbn [step] in H; unfold space_if_adding in H.
-    - break_hyp H; repeat match goal with |- context [if ?x then _ else _] => destruct x end; repeat constructor.
-    - destruct (is_script_or_style n && negb (allowUnsafe p)); [inv_ok; constructor|].
-      destruct (element_policies I p n) as [aps|].
-      + destruct ((match clean_attrs I p n a aps with [] => true | _ => false end) && negb (allow_no_attrs I p n)).
-        * inv_ok. destruct (addSpaces p); repeat constructor.
-        * eapply kept_start_checked; [|eauto]. reflexivity.
-      + inv_ok. destruct (addSpaces p); repeat constructor.
-    - set (st0 := if beqb (recent st) (normalise n) then set_recent st [] else st) in *. clearbody st0.
-      destruct (is_script_or_style n && negb (allowUnsafe p)); [inv_ok; constructor|].
-      destruct (skipClosing st0).
-      + destruct (stack st0) as [|[top k] rest]; [discriminate|].
-        destruct (beqb top n); [|eapply end_tail_checked; eauto].
-        destruct k; [|eapply end_tail_checked; eauto].
-        inv_ok. destruct (addSpaces p); repeat constructor.
-      + eapply end_tail_checked; eauto.
-    - break_hyp H; repeat match goal with |- context [if ?x then _ else _] => destruct x end; repeat constructor.
-    - break_hyp H; repeat match goal with |- context [if ?x then _ else _] => destruct x end; repeat constructor.
-    - inv_ok. constructor.
-  Qed.
-
-  Lemma run_from_checked : forall ts st, Forall (fun c => checked c = true) (fst (run_from I p st ts)).
-  Proof.
-    induction ts as [|t ts IH]; intros st; cbn [run_from]; [constructor|].
-    destruct (step I p st t) as [st' out|] eqn:E; [|constructor].
-    specialize (IH st'). destruct (run_from I p st' ts) as [rest pn]. simpl in *.
-    apply Forall_app. split; auto. eapply step_checked; eauto.
+    intros ts. unfold run. destruct (run_items I p ts) as [its pn]. cbn [fst].
+    apply Forall_forall. intros c Hc. apply in_map_iff in Hc as (it & <- & _). reflexivity.
   Qed.
 End LoopInv.
 
@@ -198,5 +167,5 @@ Arguments step_inv {M U R} I p st t st' out.
 Arguments step_no_panic {M U R} I p st t.
 Arguments run_from_no_panic {M U R} I p ts st.
 Arguments run_no_panic {M U R} I p ts.
-Arguments step_checked {M U R} I p st t st' out.
-Arguments run_from_checked {M U R} I p ts st.
+Arguments run_checked {M U R} I p ts.
+Arguments run_items_no_panic {M U R} I p ts.
